@@ -93,6 +93,8 @@ pub fn eval(sc: &Scenario) -> CaseResult {
 
 pub fn gen(tier: Tier) -> BoxedStrategy<Scenario> {
     let mut p = GenParams::default();
+    // tick rates other than the default 60 fps (the builder's with_fps follows the game's tick rate)
+    p.fps = vec![60, 60, 60, 30, 120, 144];
     p.ticks = tier.pick((200, 700), (600, 2000));
     p.desync = vec![0, 1, 1, 2, 3, 5];
     p.windows.push((2, 0));
